@@ -58,7 +58,8 @@ Join2(c1, c2) ==      \* every way two compounds can stand next to each other
 Sel2(lazy) == UNION { Join2(c1, c2) : c1 \in Compounds, c2 \in Compounds }
 (* (the class `1` is written `\31 ` - an escape ending in the white space that terminates it - and serialised the same way) *)
 SelFew == UNION { Join2(c1, c2) : c1 \in {<<Dl(".", FALSE), I("a", FALSE)>>, <<I("div", FALSE)>>, <<Col(FALSE), I("hover", FALSE)>>, <<Dl(".", FALSE), I("1", FALSE)>>},
-                                  c2 \in {<<Dl(".", FALSE), I("b", FALSE)>>, <<Hs("i1", FALSE)>>, <<Brk(<<I("x", FALSE)>>, FALSE)>>} }
+                                  c2 \in {<<Dl(".", FALSE), I("b", FALSE)>>, <<Hs("i1", FALSE)>>, <<Brk(<<I("x", FALSE)>>, FALSE)>>,
+                                          <<Dl(".", FALSE), I("A", FALSE)>>} }        \* (class names are case-sensitive: .a and .A are two classes)
 (* a compound that starts with a type selector and a pseudo-class, then a class: as the argument of a selector function or
    in a prelude block its first two tokens look like `name:` of a declaration *)
 SelTypePseudo == { <<I("li", FALSE), Col(FALSE), I("hover", FALSE), Dl(".", TRUE), I("tip", FALSE)>>,
@@ -99,7 +100,7 @@ FSel(lazy) == UNION { Wrappers(Rule(s, Red)) : s \in SelFew \cup SelNested(0) } 
 
 -----------------------------------------------------------------------------
 (* values and numbers: n indexes the harness's numeric pool *)
-Pool == (1..28) \cup {31}
+Pool == (1..28) \cup {31, 32, 33}
 ValShapes(d) == { <<d>>, <<Num(2, FALSE), [d EXCEPT !.w = TRUE]>>, <<d, Dim(3, "px", TRUE)>>,
                   <<Fn("calc", <<d, Dl("+", TRUE), Dim(3, "px", TRUE)>>, FALSE)>>,
                   <<Fn("calc", <<Dim(3, "px", FALSE), Dl("-", TRUE), [d EXCEPT !.w = TRUE]>>, FALSE)>>,
@@ -200,10 +201,17 @@ HostRules == { Rule(HostSel, HD), Rule(<<Col(FALSE), I("HOST", FALSE)>>, HD), Ru
                Rule(<<Dl(".", FALSE), I("a", FALSE), Com(FALSE), Col(TRUE), I("host", FALSE)>>, HD),
                Rule(<<I("div", FALSE), Col(FALSE), I("HOST", FALSE)>>, HD),
                Rule(<<I("div", FALSE), Col(FALSE), Col(FALSE), I("host", FALSE)>>, HD),
+               (* .. also right after another pseudo-class, a functional one, or an attribute selector of the same compound *)
+               Rule(<<Dl(".", FALSE), I("b", FALSE), Col(FALSE), I("hover", FALSE), Col(FALSE), I("host", FALSE)>>, HD),
+               Rule(<<Dl(".", FALSE), I("a", FALSE), Col(FALSE), Fn("not", <<Dl(".", FALSE), I("x", FALSE)>>, FALSE), Col(FALSE), I("host", FALSE)>>, HD),
+               Rule(<<Col(FALSE), I("hover", FALSE), Brk(<<I("y", FALSE)>>, FALSE), Col(FALSE), I("HOST", FALSE)>>, HD),
                (* a {..} block inside the declarations of the :host rule: its `}` does not end the rule *)
                Rule(HostSel, <<Decl("--x", <<Cur(<<I("a", FALSE), Col(FALSE), I("b", TRUE)>>, TRUE)>>), Decl("width", <<Dim(3, "rpx", FALSE)>>)>>),
                Rule(HostSel, <<Decl("color", <<I("red", FALSE)>>), DeclL("--y", <<Cur(<<Cur(<<>>, FALSE), Dim(3, "rpx", TRUE)>>, FALSE)>>)>>) }
-Chains(rs) == { rs, <<At("Media", <<I("screen", TRUE)>>, "rules", rs)>>, <<At("media", <<Par(<<I("width", FALSE), Col(FALSE), Dim(3, "px", TRUE)>>, TRUE)>>, "rules", rs)>>,
+Chains(rs) == { rs, <<At("Media", <<I("screen", TRUE)>>, "rules", rs)>>,
+                (* preludes with characters outside ASCII / outside the BMP: they are replayed as text in the low-priority output *)
+                <<At("layer", <<I("~Z~~E~", TRUE)>>, "rules", rs)>>,
+                <<At("supports", <<Par(<<I("font-family", FALSE), Col(FALSE), Str("~Z~ ~M~", TRUE)>>, TRUE)>>, "rules", <<Ord("k")>> \o rs)>>, <<At("media", <<Par(<<I("width", FALSE), Col(FALSE), Dim(3, "px", TRUE)>>, TRUE)>>, "rules", rs)>>,
                 <<At("media", <<I("screen", TRUE)>>, "rules", <<Ord("m")>> \o <<At("supports", <<Par(<<I("color", FALSE), Col(FALSE), I("red", TRUE)>>, TRUE)>>, "rules", rs)>> \o <<Ord("n")>>)>>,
                 <<At("supports", <<Par(<<I("a", FALSE), Col(FALSE), I("b", FALSE)>>, TRUE)>>, "rules",
                     <<At("media", <<I("print", TRUE)>>, "rules", <<At("media", <<Par(<<I("c", FALSE), Col(FALSE), Dim(3, "rpx", FALSE)>>, TRUE)>>, "rules", rs)>>)>>)>> }
@@ -228,6 +236,7 @@ FImport(lazy) == { <<Import(f, p, l, s, m)>> : f \in {"string", "url"}, p \in Im
            \cup { <<Ord("a"), Import("string", p, "none", <<>>, <<>>)>> : p \in ImportPaths }
            \cup { <<Import("STRING", p, l, s, m)>> : p \in {"a.wxss", "a%20b"}, l \in {"none", "", "x"},      \* @IMPORT .. LAYER(x) SUPPORTS(..)
                      s \in {<<>>, <<I("display", FALSE), Col(FALSE), I("grid", TRUE)>>}, m \in {<<>>, <<I("screen", TRUE)>>} }
+           \cup { <<Import("URLSTR", p, l, <<>>, m)>> : p \in {"a.wxss", "a%20b", "q'r"}, l \in {"none", "x"}, m \in {<<>>, <<I("screen", TRUE)>>} }
            (* dotted layer names (sub-layers) *)
            \cup { <<ImportSub(f, "a", "base", "comp", s, m)>> : f \in {"string", "url", "STRING"},
                      s \in {<<>>, <<Fn("selector", <<Dl(".", FALSE), I("k", FALSE)>>, FALSE)>>}, m \in {<<>>, <<I("screen", TRUE)>>} }
